@@ -390,7 +390,11 @@ func cmdSearch(args []string) string {
 	cpu0 := cpuSeconds()
 	wallCap := t0.Add(time.Duration(secs*40*float64(time.Second)) + 5*time.Minute)
 	var lastValid string
-	for i := 0; i < count && cpuSeconds()-cpu0 < secs && time.Now().Before(wallCap); i++ {
+	// … and a floor on the number of programs: on a heavily loaded many-core machine the CPU time of a Go process is
+	// inflated by scheduler and GC-worker contention (measured: 18 instead of 96 programs per CPU-second at load 100+),
+	// which would silently shrink the search
+	minPrograms := int(secs * 40)
+	for i := 0; i < count && (cpuSeconds()-cpu0 < secs || i < minPrograms) && time.Now().Before(wallCap); i++ {
 		var src, class string
 		k := r.Intn(100)
 		switch {
